@@ -203,6 +203,24 @@ fn main() {
         }
     }
     c.add_sweep("operations: full Transport script (features, status, per-queue set/used/notify/unset for 3 queues, ISR, generation, drop with reset lag 0..2) on 6 layouts, plain and through SomeTransport", ev, layouts.len() as u64 * 6, true, J::obj());
+    // Part G: window lengths that are not a multiple of the access width.
+    {
+        let mut ev = 0;
+        let mut cases = 0;
+        for nl in [2u32, 3, 4, 5, 6, 7, 9, 13] {
+            for mult in [2u32, 4] {
+                for dl in [4u32, 5, 6, 7, 9, 10, 11, 17, 18, 19] {
+                    let (n, v) = c11::run_odd_windows(&good_bars(), nl, mult, dl);
+                    ev += n;
+                    cases += 1;
+                    for (k, d) in v {
+                        c.add_violation(Violation::new("C11", k, format!("notify window of {} bytes (multiplier {}), device configuration window of {} bytes: {}", nl, mult, dl, d)), "odd-window-lengths", J::obj().set("kind", J::s("case")).set("case", J::s(d)), vec![]);
+                    }
+                }
+            }
+        }
+        c.add_sweep("odd window lengths: notify on 3 queues and configuration reads/writes of width 1/2/4 at every aligned offset up to 8 bytes past the window, for notify windows of 2..13 bytes and device configuration windows of 4..19 bytes", ev, cases, true, J::obj());
+    }
     // Part F: cyclic capability lists.
     {
         let mut ev = 0;
